@@ -328,6 +328,8 @@ class Analyzer:
                     v = pv if pv is not None else {"k": "agg", "f": {}, "t": v["t"]}
                 else:
                     v = top(taint_of(v))
+            elif isinstance(e, dict) and "idx" in e and v["k"] == "seq" and v.get("e") is not None:
+                v = v["e"]       # seq[i]: the element summary (what `next()` of its iterator yields as well)
             elif isinstance(e, dict) and ("idx" in e or "cidx" in e or "sub" in e):
                 v = top(taint_of(v))
             else:
@@ -898,6 +900,75 @@ def _exhaustion_edges(fn, headers, bodies):
             if len(none) == 1 and none[0] not in body and sum(1 for x in body if (callee_name(fn.term(x)) or "").endswith("Iterator::next")) == 1:
                 exh[(tb, none[0])] = h
                 nxt[h] = t
+    # counted loops over a whole slice: `let mut i = 0; while i < seq.len() { .. seq[i] ..; i += 1 }` — the edge on which `i < len` is false
+    # is taken exactly when every index 0..len has been visited, like the exhaustion of `seq.iter()`
+    for h in headers:
+        if h in nxt:
+            continue
+        body = bodies[h]
+        for sb in body:
+            tt = fn.term(sb)
+            if tt["k"] != "switch" or len(tt["targets"]) != 1 or tt["targets"][0][0] != "0":
+                continue
+            exit_b, stay_b = tt["targets"][0][1], tt["otherwise"]
+            if exit_b in body or stay_b not in body:
+                continue
+            dl = op_local(tt["d"], pure=True)
+            cmpst = None
+            for st_ in fn.stmts(sb):
+                if st_["k"] == "assign" and st_["lhs"]["l"] == dl and st_["rv"]["k"] == "bin" and st_["rv"]["op"] == "Lt":
+                    cmpst = st_
+            if cmpst is None:
+                continue
+
+            def chase(l):
+                for _ in range(4):
+                    ds = [(bb, ii, ss) for bb, ii, ss in fn.defs.get(l, [])]
+                    if len(ds) != 1 or ds[0][1] == "T" or ds[0][2]["rv"]["k"] != "use":
+                        return l
+                    nl = op_local(ds[0][2]["rv"]["a"], pure=True)
+                    if nl is None:
+                        return l
+                    l = nl
+                return l
+            ctr = chase(op_local(cmpst["rv"]["a"], pure=True)) if op_local(cmpst["rv"]["a"], pure=True) is not None else None
+            lenl = op_local(cmpst["rv"]["b"], pure=True)
+            if ctr is None or lenl is None:
+                continue
+            # the right-hand side is the length of a slice / vector: result of `len()` (or PtrMetadata) taken inside the loop head
+            ld = fn.defs.get(lenl, [])
+            seq_op = None
+            if len(ld) == 1 and ld[0][1] == "T" and (callee_name(ld[0][2]) or "").endswith(("slice::len", "Vec::len")) and ld[0][2]["args"]:
+                al = op_local(ld[0][2]["args"][0], pure=True)
+                ad = fn.defs.get(al, []) if al is not None else []
+                if len(ad) == 1 and ad[0][1] != "T" and ad[0][2]["rv"]["k"] == "ref":
+                    pl = ad[0][2]["rv"]["p"]
+                    if pl.get("p") in (["deref"], None, []):
+                        seq_op = {"copy": {"l": pl["l"]}} if pl.get("p") == ["deref"] else {"ref_of": pl["l"]}
+            if seq_op is None or "ref_of" in seq_op:
+                continue
+            # the counter: one definition outside the loop (the constant 0), one inside (itself plus the constant 1)
+            cds = fn.defs.get(ctr, [])
+            outside = [d for d in cds if d[0] not in body]
+            inside = [d for d in cds if d[0] in body]
+            if len(outside) != 1 or len(inside) != 1 or outside[0][1] == "T" or inside[0][1] == "T":
+                continue
+            o_rv, i_rv = outside[0][2]["rv"], inside[0][2]["rv"]
+            if not (o_rv["k"] == "use" and (o_rv["a"].get("const") or {}).get("scalar") in ("0", 0)):
+                continue
+            step_ok = False
+            if i_rv["k"] == "use":
+                sl = op_local(i_rv["a"])
+                sd = fn.defs.get(sl, []) if sl is not None else []
+                if len(sd) == 1 and sd[0][1] != "T" and sd[0][2]["rv"]["k"] == "bin" and sd[0][2]["rv"]["op"] in ("AddWithOverflow", "Add", "AddUnchecked"):
+                    a_, b_ = sd[0][2]["rv"]["a"], sd[0][2]["rv"]["b"]
+                    step_ok = op_local(a_, pure=True) == ctr and (b_.get("const") or {}).get("scalar") in ("1", 1)
+            elif i_rv["k"] == "bin" and i_rv["op"] in ("Add", "AddUnchecked"):
+                step_ok = op_local(i_rv["a"], pure=True) == ctr and (i_rv["b"].get("const") or {}).get("scalar") in ("1", 1)
+            if not step_ok:
+                continue
+            exh[(sb, exit_b)] = h
+            nxt[h] = {"args": [seq_op], "counted": True}
     return exh, nxt
 
 
@@ -912,8 +983,11 @@ def _int_tags(v, out):
 
 
 def _iter_elem_tags(self, fn, st, next_term):
-    tgt = _ref_target(st, self.read_op(fn, st, next_term["args"][0])) if next_term.get("args") else None
+    rv = self.read_op(fn, st, next_term["args"][0]) if next_term.get("args") else None
+    tgt = _ref_target(st, rv)
     v = st.get(tgt) if tgt is not None else None
+    if v is None and next_term.get("counted") and rv is not None and rv.get("k") == "seq":
+        v = rv        # a counted loop names the slice itself (a `&[T]` parameter is held as the sequence)
     out = set()
     if v and v["k"] == "seq":
         _int_tags(v.get("e"), out)
